@@ -373,8 +373,13 @@ fn history_nft(cfg: &Cfg, rep: &mut Report, h: u64, steps: usize) {
             // burn(from, id): #[has_role(from, "burner")] + Base::burn(from auth, from owns)
             ("burn", args!(e, u[caller], tok), Some(caller), has_b.contains(&caller) && owner_of.get(&tok) == Some(&caller))
         } else {
-            // burn_from(spender, from, id) with spender == from so that no approval is involved
-            ("burn_from", args!(e, u[caller], u[caller], tok), Some(caller), has_b.contains(&caller) && owner_of.get(&tok) == Some(&caller))
+            // burn_from(spender, from, id): #[has_role(spender, "burner")]; the spender is the caller, `from`
+            // the token's owner, who has made the caller an operator just before (so that the role check, not
+            // the approval, decides)
+            let from = owner_of.get(&tok).cloned().unwrap_or(caller);
+            e.mock_all_auths();
+            let _: Result<(), Fail> = invoke(e, &c, "approve_for_all", args!(e, u[from], u[caller], w.ledger() + 100));
+            ("burn_from", args!(e, u[caller], u[from], tok), Some(caller), has_b.contains(&caller) && owner_of.contains_key(&tok))
         };
         let signers: Vec<usize> = if rng.chance(1, 2) {
             principal.into_iter().filter(|p| *p < n).collect()
@@ -455,25 +460,49 @@ fn history_ownable(cfg: &Cfg, rep: &mut Report, h: u64) {
     let u = w.accounts(n);
     let c = e.register(examples::ownable::ExampleContract, (u[0].clone(),));
     let mut owner = Some(0usize);
-    for step in 0..40 {
-        let renounce = step > 10 && rng.chance(1, 10);
-        let f = if renounce { "renounce_ownership" } else { "increment" };
+    let mut pending: Option<usize> = None;
+    for step in 0..60 {
+        // the owner changes hands during the history (the handshake itself is C07's subject): the guard
+        // must follow the owner of the moment
+        let k = rng.below(20);
+        let new = rng.idx(n);
+        let (f, av): (&str, SVec<Val>) = match k {
+            0 if step > 15 => ("renounce_ownership", args!(e)),
+            1..=3 => ("transfer_ownership", args!(e, u[new], w.ledger() + 1000)),
+            4..=6 => ("accept_ownership", args!(e)),
+            _ => ("increment", args!(e)),
+        };
         let mask = rng.below(1 << n);
         let signers: Vec<usize> = (0..n).filter(|i| mask >> i & 1 == 1).collect();
-        let inv = Inv::new(&c, f, args!(e));
+        let inv = Inv::new(&c, f, av.clone());
         let entries: Vec<(Address, Inv)> = signers.iter().map(|i| (u[*i].clone(), inv.clone())).collect();
         w.auth(&entries);
-        let got: Result<Val, Fail> = invoke(e, &c, f, args!(e));
+        let got: Result<Val, Fail> = invoke(e, &c, f, av);
         rep.evaluations += 1;
-        let want = owner.map_or(false, |o| signers.contains(&o));
-        rep.op(format!("#{step} {f} signed by {signers:?} -> {}", tag(&got)));
-        rep.case(format!("ownable/{f}/owner_set={}/auth={want}/{}", owner.is_some(), tag(&got)));
+        let owner_signed = owner.map_or(false, |o| signers.contains(&o));
+        let want = match f {
+            "accept_ownership" => pending.map_or(false, |p| signers.contains(&p)),
+            "renounce_ownership" => owner_signed && pending.is_none(),
+            _ => owner_signed,
+        };
+        rep.op(format!("#{step} {f} signed by {signers:?} (owner {owner:?}, pending {pending:?}) -> {}", tag(&got)));
+        rep.case(format!("ownable/{f}/owner_set={}/pending={}/auth={want}/{}", owner.is_some(), pending.is_some(), tag(&got)));
         rep.check("auth", got.is_ok() == want, &format!("C06/auth/ownable/{f}/outcome"), || {
-            format!("{f} signed by {signers:?} with owner {owner:?}: contract answered {got:?}")
+            format!("{f} signed by {signers:?} with owner {owner:?}, pending {pending:?}: contract answered {got:?}")
         });
-        if got.is_ok() && renounce {
-            owner = None;
+        if got.is_ok() {
+            match f {
+                "renounce_ownership" => owner = None,
+                "transfer_ownership" => pending = Some(new),
+                "accept_ownership" => {
+                    owner = pending;
+                    pending = None;
+                }
+                _ => {}
+            }
         }
+        let go: Option<Address> = invoke(e, &c, "get_owner", args!(e)).must("get_owner");
+        rep.check("ref", go == owner.map(|o| u[o].clone()), "C06/ref/ownable/get_owner", || format!("get_owner = {go:?}, model owner {owner:?}"));
     }
     rep.end_history();
 }
